@@ -54,7 +54,12 @@ def verdict (st : St) (env : Spec.Env) (op : Spec.OpReq) (o : Obs) (twinKey : Op
         | .get r =>
           (if Spec.c05_assert_uses_lookup r o then [] else ["assertion-not-with-first-credential-of-the-lookup-for-rp-and-allow-list"])
           ++ (if Spec.c05_assert_bound env.pre r o then [] else ["assertion-with-credential-of-another-rp-or-outside-allow-list"])
-        | .make r => if Spec.c05_excluded_iff env r o then [] else ["credential-excluded-not-exactly-when-listed-credential-held-for-rp"])
+          ++ (if Spec.c05_assert_selects env r o then [] else ["absent-or-empty-allow-list-does-not-select-the-first-credential-of-the-rp"])
+        | .make r => (if Spec.c05_excluded_iff env r o then [] else ["credential-excluded-not-exactly-when-listed-credential-held-for-rp"])
+          -- a store other than the single slot keeps what it held when it accepts a new credential (or later
+          -- lookups by id and RP could not be answered as the contract says)
+          ++ (if kindName != "slot" && Spec.isOk o.res && !(env.pre.all (fun p => o.store.any (fun q => q.credId == p.credId && q.rpId == p.rpId))) then
+                [s!"store-contract:{kindName}:saving-a-credential-dropped-one-held-before"] else []))
     match fails with
     | [] => ("ok", st.twins)
     | f :: _ => ("fail:" ++ f, st.twins)
